@@ -51,6 +51,7 @@
 #include "muduo/net/Socket.h"
 #include "muduo/net/SocketsOps.h"
 #include "muduo/net/poller/EPollPoller.h"
+#include "muduo/net/poller/PollPoller.h"
 #include "muduo/base/Logging.h"
 #include "muduo/base/WeakCallback.h"
 #include "muduo/base/CurrentThread.h"
@@ -73,8 +74,10 @@ struct Foreign
 {
   std::thread th;
   sem_t reached, release;
-  int armed;        // bit 1: stall at setState, bit 2: stall at the next pthread_mutex_lock
-  int at;           // where it is parked: 1, 2, or 0 = the API call has returned
+  int armed;        // bit 1: stall at setState, bit 2: stall at the next pthread_mutex_lock (after skipLocks more),
+                    // bit 4: stall right after the stallWrites-th write to a descriptor that is not a connection (loop wakeups)
+  int skipLocks, stallWrites;
+  int at;           // where it is parked: 1, 2, 4, or 0 = the API call has returned
   int conn, api;
   bool loaded, stored, pin;
   TcpConnectionPtr copy;
@@ -105,7 +108,10 @@ int __real_shutdown(int fd, int how);
 
 extern "C" int __wrap_pthread_mutex_lock(pthread_mutex_t* m)
 {
-  if (t_self && (t_self->armed & 2) && !(t_self->armed & 1)) verif_stall(2);
+  if (t_self && (t_self->armed & 2) && !(t_self->armed & 1))
+  {
+    if (t_self->skipLocks > 0) --t_self->skipLocks; else verif_stall(2);
+  }
   return __real_pthread_mutex_lock(m);
 }
 
@@ -128,7 +134,8 @@ static std::vector<string> g_events;    // callbacks, in order
 static std::vector<std::pair<int, string>> g_dtors;   // (conn, text)
 static std::map<int, int> g_fdconn;     // server-side fd -> connection id (while open)
 static std::map<int, int> g_tidIndex;   // kernel tid -> thread index
-static std::vector<int> g_epfd;         // per loop
+static std::vector<int> g_epfd;         // per loop: epoll descriptor, or -1 when the loop uses PollPoller (MUDUO_USE_POLL)
+static std::vector<muduo::net::PollPoller*> g_pp;   // per loop: the PollPoller, or NULL
 static long g_wscript = -1;             // next write on a connection fd takes at most this many bytes (-1: all)
 static bool g_readvFail = false;
 static int g_badClose = 0;
@@ -139,7 +146,26 @@ static int threadIndex()
   return it == g_tidIndex.end() ? 999 : it->second;
 }
 
-static string epollMask(int epfd, int fd)
+static string epollMaskFd(int epfd, int fd);
+// the poller's registration of fd on loop l: "-" = the kernel is not asked about it, else the interest ("0" = empty)
+static string epollMask(int l, int fd)
+{
+  if (g_pp[static_cast<size_t>(l)])
+  {
+    const std::vector<struct pollfd>& v = g_pp[static_cast<size_t>(l)]->pollfds_;
+    for (size_t i = 0; i < v.size(); ++i)
+      if (v[i].fd == fd)
+      {
+        string m;
+        if (v[i].events & (POLLIN | POLLPRI)) m += "r";
+        if (v[i].events & POLLOUT) m += "w";
+        return m.empty() ? "0" : m;
+      }
+    return "-";
+  }
+  return epollMaskFd(g_epfd[static_cast<size_t>(l)], fd);
+}
+static string epollMaskFd(int epfd, int fd)
 {
   char path[64];
   snprintf(path, sizeof path, "/proc/self/fdinfo/%d", epfd);
@@ -163,7 +189,12 @@ extern "C" ssize_t __wrap_write(int fd, const void* buf, size_t n)
 {
   bool ours;
   { ours = g_fdconn.count(fd) > 0; }
-  if (!ours || g_wscript < 0) return __real_write(fd, buf, n);
+  if (!ours || g_wscript < 0)
+  {
+    ssize_t r = __real_write(fd, buf, n);
+    if (!ours && t_self && (t_self->armed & 4) && --t_self->stallWrites <= 0) verif_stall(4);
+    return r;
+  }
   size_t m = static_cast<size_t>(g_wscript) < n ? static_cast<size_t>(g_wscript) : n;
   if (m == 0) return 0;
   return __real_write(fd, buf, m);
@@ -186,7 +217,7 @@ extern "C" int __wrap_close(int fd)
   {
     int c = it->second;
     bool inset = false;
-    for (size_t l = 0; l < g_epfd.size(); ++l) inset = inset || epollMask(g_epfd[l], fd) != "-";
+    for (size_t l = 0; l < g_epfd.size(); ++l) inset = inset || epollMask(static_cast<int>(l), fd) != "-";
     if (inset) ++g_badClose;
     g_dtors.push_back(std::make_pair(c, "Dtor@" + std::to_string(threadIndex()) + "#" + std::to_string(c) + (inset ? "!REGISTERED" : "")));
     g_fdconn.erase(it);
@@ -353,7 +384,7 @@ int main()
       strict = w[4] == "1";
       wc = w[5] == "1";
       (void)strict;
-      g_conns.clear(); g_events.clear(); g_dtors.clear(); g_fdconn.clear(); g_epfd.clear(); g_badClose = 0;
+      g_conns.clear(); g_events.clear(); g_dtors.clear(); g_fdconn.clear(); g_epfd.clear(); g_pp.clear(); g_badClose = 0;
       g_wscript = -1;
       for (int l = 0; l <= nio; ++l)
       {
@@ -361,7 +392,12 @@ int main()
         r->w.start(l);
         r->w.exec([r]() { r->loop = new EventLoop; });
         loops.push_back(r);
-        g_epfd.push_back(static_cast<EPollPoller*>(r->loop->poller_.get())->epollfd_);
+        {
+          EPollPoller* ep = dynamic_cast<EPollPoller*>(r->loop->poller_.get());
+          g_epfd.push_back(ep ? ep->epollfd_ : -1);
+          g_pp.push_back(ep ? NULL : dynamic_cast<PollPoller*>(r->loop->poller_.get()));
+          if (getenv("C02_DEBUG")) fprintf(stderr, "loop %d poller=%s\n", l, ep ? "epoll" : (g_pp.back() ? "poll" : "?"));
+        }
       }
       loops[0]->w.exec([&]() {
         InetAddress addr("127.0.0.1", 0);
@@ -395,6 +431,16 @@ int main()
       for (auto& c : calls)
       {
         Foreign* f = c.second;
+        if (f->api == 6)
+        {
+          f->armed = 0;
+          while (f->at != 0) { sem_post(&f->release); sem_wait(&f->reached); }
+          sem_post(&f->release);
+          f->th.join();
+          client = NULL;
+          delete f;
+          continue;
+        }
         while (f->at != 0)
         {
           // a call parked in front of its setState whose test no longer holds (the check-then-act race of
@@ -618,7 +664,7 @@ int main()
       {
         ConnRec& cr = g_conns[static_cast<size_t>(c)];
         Channel* ch = p->channel_.get();
-        string mask = epollMask(g_epfd[static_cast<size_t>(cr.loop)], cr.fd);
+        string mask = epollMask(cr.loop, cr.fd);
         const string& e = w[2];
         if (!ch->addedToLoop_ || mask == "-" || !idle(cr.loop)) rejected = true;
         else if ((e == "DATA" || e == "EOF" || e == "RERR") && !ch->isReading()) rejected = true;
@@ -718,10 +764,41 @@ int main()
     {
       int u = I(1), c = I(2);
       TcpConnectionPtr p = aliveUp(c);
+      bool dtor = w[3] == "dtor";
+      bool dtorBusy = false;
+      for (auto& cc : calls) dtorBusy = dtorBusy || cc.second->api == 6;
       if (calls.count(u) || !p) rejected = true;
+      else if (dtor && (!client || dtorBusy || client->connection_.get() != p.get())) rejected = true;
+      else if (dtor)
+      {
+        // ~TcpClient on a foreign thread (F-13).  XB: the section under mutex_ (unique = connection_.unique(); conn = connection_),
+        // parked in front of the lock of runInLoop(setCloseCallback);  XS: runInLoop(...) and, if unique, forceClose(), parked
+        // right after the last loop wakeup;  XE: the destructor's locals and members die, the memory is freed
+        p.reset();
+        Foreign* f = new Foreign;
+        sem_init(&f->reached, 0, 0);
+        sem_init(&f->release, 0, 0);
+        f->api = 6; f->conn = c; f->armed = 2; f->skipLocks = 1; f->stallWrites = 0; f->at = -1; f->pin = false; f->stored = false;
+        f->loaded = client->connection_.unique();
+        int idx = 100 + u;
+        TcpClient* victim = client;
+        f->th = std::thread([f, idx, victim]() {
+          { std::lock_guard<std::mutex> l(g_mu); g_tidIndex[CurrentThread::tid()] = idx; }
+          t_self = f;
+          delete victim;
+          f->armed = 0;
+          f->at = 0;
+          sem_post(&f->reached);
+          sem_wait(&f->release);
+          t_self = NULL;
+        });
+        sem_wait(&f->reached);
+        calls[u] = f;
+      }
       else
       {
         Foreign* f = new Foreign;
+        f->skipLocks = 0; f->stallWrites = 0;
         sem_init(&f->reached, 0, 0);
         sem_init(&f->release, 0, 0);
         const string& a = w[3];
@@ -770,7 +847,14 @@ int main()
       else
       {
         Foreign* f = it->second;
-        if (f->at == 1) { sem_post(&f->release); sem_wait(&f->reached); }
+        if (f->api == 6 && f->at == 2)
+        {
+          TcpConnection* conn = g_conns[static_cast<size_t>(f->conn)].raw;
+          bool force = f->loaded && (conn->state_ == TcpConnection::kConnected || conn->state_ == TcpConnection::kDisconnecting);
+          f->armed = 4; f->stallWrites = force ? 2 : 1;
+          sem_post(&f->release); sem_wait(&f->reached);
+        }
+        else if (f->at == 1) { sem_post(&f->release); sem_wait(&f->reached); }
         f->stored = true;
       }
     }
@@ -779,6 +863,16 @@ int main()
       int u = I(1);
       std::map<int, Foreign*>::iterator it = calls.find(u);
       if (it == calls.end() || !it->second->stored) rejected = true;
+      else if (it->second->api == 6)
+      {
+        Foreign* f = it->second;
+        while (f->at != 0) { sem_post(&f->release); sem_wait(&f->reached); }
+        sem_post(&f->release);
+        f->th.join();
+        client = NULL;
+        delete f;
+        calls.erase(it);
+      }
       else
       {
         Foreign* f = it->second;
@@ -832,7 +926,7 @@ int main()
       char buf[128];
       snprintf(buf, sizeof buf, "L%dS%dw%dr%df%da%de%sh%ldd%dn%d", cr.loop, static_cast<int>(p->state_), p->channel_->isWriting() ? 1 : 0,
                p->channel_->isReading() ? 1 : 0, p->reading_ ? 1 : 0, p->channel_->addedToLoop_ ? 1 : 0,
-               epollMask(g_epfd[static_cast<size_t>(cr.loop)], cr.fd).c_str(), uc, timers, cr.fin ? 1 : 0);
+               epollMask(cr.loop, cr.fd).c_str(), uc, timers, cr.fin ? 1 : 0);
       cs += buf;
     }
     if (cs.empty()) cs = "-";
